@@ -415,7 +415,7 @@ func loadLikeSandbox(text []byte) (*seccomp.Policy, error) {
 
 func drawC14Cfg(t *rapid.T) c14CfgCase {
 	prof := []gen.Profile{gen.Small, gen.CondHeavy, gen.CondHeavy, gen.NamesOnly}[rapid.IntRange(0, 3).Draw(t, "profile")]
-	p := gen.Policy(t, "x86_64", gen.Opts{Profile: prof, MaxInsns: 3500})
+	p := gen.Policy(t, "x86_64", gen.Opts{Profile: prof, MaxInsns: 3500, NamedActionsOnly: true})
 	return c14CfgCase{Policy: p, Seed: rapid.Uint64().Draw(t, "seed"),
 		Path: []string{"writer", "writer", "yaml-marshal", "json-marshal"}[rapid.IntRange(0, 3).Draw(t, "path")]}
 }
